@@ -37,6 +37,18 @@ std::uint64_t bits(T v)
     return static_cast<std::uint64_t>(static_cast<typename std::make_unsigned<T>::type>(v));
 }
 
+// `deprecated()` exists only for entities that declare the attribute: report its value, or all-ones when the member is absent
+template<typename T>
+auto dep_of(int) -> decltype(static_cast<std::uint64_t>(T::deprecated()))
+{
+    return static_cast<std::uint64_t>(T::deprecated());
+}
+template<typename T>
+std::uint64_t dep_of(long)
+{
+    return ~static_cast<std::uint64_t>(0);
+}
+
 // scalar-like results: required/optional wrappers (value()), sets (operator*), enums
 template<typename T>
 auto probe(T v, int) -> decltype(bits(v.value()))
